@@ -514,7 +514,7 @@ var Prop = &harness.Prop{
 				}
 			}
 		}
-		u = append(u, freshnessUnit())
+		u = append(u, freshnessUnit(), wholeReplayUnit())
 		u = append(u, refUnits(tier)...)
 		return u
 	},
